@@ -9,8 +9,9 @@
    where they overlap, the definitions of Model/Algebra.v (indexed_axes, py_nth, unique_counts,
    coverage_of, norm_index) used by the C01/C07 model of TransposeIndexRule.
    A gather is (output shape, list `sel` of flat input positions in row-major output order); the
-   theorems of the first group hold for ARBITRARY sel, hence for every index expression, including the
-   multi-array ones whose sel is read off the implementation. *)
+   theorems of the first group hold for ARBITRARY sel, hence for every index expression; the group
+   "every index tuple" instantiates them on `leaf_gather`, the gather the model COMPUTES for every tuple,
+   tuples with several array entries (NumPy advanced indexing with broadcasting: index_adv) included. *)
 From Coq Require Import ZArith NArith List Bool Arith Permutation Ring.
 From Furax Require Import Model.Op Model.Algebra Model.Index Lemmas.IndexL.
 Import ListNotations.
@@ -62,17 +63,82 @@ Proof. exact index_leaf_perm. Qed.
 Print Assumptions index_leaf_is_outer_product.
 
 (* unique_indices inferred True (no integer array among the entries, no user flag needed) => the
-   selection has no repeated position, for every leaf shape and every int / slice / Ellipsis / mask
-   expression whose gather the model computes (at most one mask; see Check.partial for several masks) *)
+   selection has no repeated position, for every leaf shape and EVERY int / slice / Ellipsis / mask
+   expression: any number of masks of any rank, broadcast against each other and the ints, in place or
+   in front (IndexOperator.__init__: `all(isinstance(_, (int, slice, EllipsisType)) or isinstance(_, Array)
+   and _.dtype == bool)`; one integer array next to the masks and the inference says False unless the
+   user says otherwise: ex_mask_plus_array_repeats) *)
 Theorem unique_inference_sound : forall sh l g, infer_unique l None = true ->
+  leaf_gather sh l = Ok g -> NoDup (g_sel g).
+Proof. exact unique_inference_sound_all. Qed.
+Print Assumptions unique_inference_sound.
+
+(* the same on the part computed by index_leaf alone (at most one array entry) *)
+Theorem unique_inference_sound_one_array : forall sh l g, infer_unique l None = true ->
   index_leaf sh l = Ok (Some g) -> NoDup (g_sel g).
 Proof. exact unique_inference_sound_l. Qed.
-Print Assumptions unique_inference_sound.
+Print Assumptions unique_inference_sound_one_array.
+
+(* ---------------------------------------------------------------------------------------------- *)
+(* every index tuple (several array entries included): the gather computed by the model *)
+
+(* leaf_gather is index_leaf for at most one array entry, index_adv (broadcast advanced indices) beyond *)
+Theorem leaf_gather_cases : forall sh l g, leaf_gather sh l = Ok g ->
+  index_leaf sh l = Ok (Some g) \/ (index_leaf sh l = Ok None /\ index_adv sh l = Ok g).
+Proof. exact leaf_gather_inv. Qed.
+Print Assumptions leaf_gather_cases.
+
+(* every selected position lies inside the leaf *)
+Theorem gather_positions_in_range : forall sh l g, leaf_gather sh l = Ok g ->
+  Forall (fun q => q < prod sh) (g_sel g).
+Proof. exact leaf_gather_in_range. Qed.
+Print Assumptions gather_positions_in_range.
+
+(* the transpose of x[indices] is the scatter-add of the same position list into zeros(leaf shape) *)
+Theorem index_T_is_scatter_add_any_tuple : forall (K : Type) (k0 k1 : K) (kadd kmul ksub : K -> K -> K) (kopp : K -> K),
+  ring_theory k0 k1 kadd kmul ksub kopp eq ->
+  forall sh l g (x y : list K), leaf_gather sh l = Ok g -> length x = prod sh ->
+  dot k0 kadd kmul (gather_data k0 (g_sel g) x) y = dot k0 kadd kmul x (scatter_add k0 kadd (prod sh) (g_sel g) y).
+Proof. exact leaf_adjoint_l. Qed.
+Print Assumptions index_T_is_scatter_add_any_tuple.
+
+(* P @ P.T is the identity exactly when the gather positions of the tuple are pairwise distinct *)
+Theorem PPt_identity_iff_any_tuple : forall (K : Type) (k0 k1 : K) (kadd kmul ksub : K -> K -> K) (kopp : K -> K),
+  ring_theory k0 k1 kadd kmul ksub kopp eq ->
+  forall sh l g, k1 <> k0 -> leaf_gather sh l = Ok g ->
+  ((forall y, length y = length (g_sel g) ->
+      gather_data k0 (g_sel g) (scatter_add k0 kadd (prod sh) (g_sel g) y) = y) <-> NoDup (g_sel g)).
+Proof. exact leaf_PPt_identity_iff_l. Qed.
+Print Assumptions PPt_identity_iff_any_tuple.
+
+(* hence IndexTransposeRule is sound on every operator whose flag was INFERRED (not user-given) *)
+Theorem PPt_rule_sound_when_inferred : forall (K : Type) (k0 k1 : K) (kadd kmul ksub : K -> K -> K) (kopp : K -> K),
+  ring_theory k0 k1 kadd kmul ksub kopp eq ->
+  forall sh l g y, k1 <> k0 -> infer_unique l None = true -> leaf_gather sh l = Ok g ->
+  length y = length (g_sel g) ->
+  gather_data k0 (g_sel g) (scatter_add k0 kadd (prod sh) (g_sel g) y) = y.
+Proof. exact leaf_PPt_inferred_l. Qed.
+Print Assumptions PPt_rule_sound_when_inferred.
+
+(* several array entries, none of them an integer array: the broadcast-first enumeration and the in-place
+   one (one merged axis) never repeat a position *)
+Theorem broadcast_masks_select_distinct : forall sh l g, forallb is_basic_or_mask l = true ->
+  index_adv sh l = Ok g -> NoDup (g_sel g).
+Proof. exact index_adv_nodup. Qed.
+Print Assumptions broadcast_masks_select_distinct.
 
 Theorem unique_inference_spec : forall l user,
   infer_unique l user = if forallb is_basic_or_mask l then true else match user with Some b => b | None => false end.
 Proof. exact infer_unique_spec. Qed.
 Print Assumptions unique_inference_spec.
+
+(* ... whereas the presence of a mask alone would not be enough: a mask with one True entry next to an
+   integer array that repeats a value selects an element twice; the code's inference answers False there
+   (seeded mutant C12-r3m2 "unique as soon as there is a mask") *)
+Theorem unique_if_any_mask_refuted : exists sh l g, existsb is_mask l = true /\ leaf_gather sh l = Ok g /\
+  ~ NoDup (g_sel g) /\ infer_unique l None = false.
+Proof. exact unique_if_any_mask_refuted_l. Qed.
+Print Assumptions unique_if_any_mask_refuted.
 
 (* ---------------------------------------------------------------------------------------------- *)
 (* the multiplicity pipeline of TransposeIndexRule (definitions of Model/Algebra.v) *)
@@ -190,7 +256,7 @@ Print Assumptions reduce_identity_only_if_noop.
 
 (* on every leaf the pack operator IS the index operator of the bare mask ... *)
 Theorem pack_is_index_by_mask : forall msh bits ins,
-  Pack_gathers (mkPop msh bits ins) = gathers ins (wrap (ASingle (XMask msh bits))) [].
+  Pack_gathers (mkPop msh bits ins) = gathers ins (wrap (ASingle (XMask msh bits))).
 Proof. exact pack_is_index_l. Qed.
 Print Assumptions pack_is_index_by_mask.
 
@@ -209,28 +275,28 @@ Print Assumptions pack_unpack_rule_sound.
 (* ---------------------------------------------------------------------------------------------- *)
 (* the constructor, with or without out_structure *)
 
-Theorem ctor_without_out_structure : forall a ins user ext gs, count_ell (wrap a) <= 1 ->
-  existsb is_mask (wrap a) = false -> gathers ins (wrap a) ext = Ok gs ->
-  Index_ctor a ins None user ext = Ok (mkIop (wrap a) ins (map g_out gs) (infer_unique (wrap a) user)).
+Theorem ctor_without_out_structure : forall a ins user gs, count_ell (wrap a) <= 1 ->
+  existsb is_mask (wrap a) = false -> gathers ins (wrap a) = Ok gs ->
+  Index_ctor a ins None user = Ok (mkIop (wrap a) ins (map g_out gs) (infer_unique (wrap a) user)).
 Proof. exact ctor_without_out_l. Qed.
 Print Assumptions ctor_without_out_structure.
 
-Theorem ctor_with_out_structure : forall a ins o user ext, count_ell (wrap a) <= 1 ->
-  Index_ctor a ins (Some o) user ext = Ok (mkIop (wrap a) ins o (infer_unique (wrap a) user)).
+Theorem ctor_with_out_structure : forall a ins o user, count_ell (wrap a) <= 1 ->
+  Index_ctor a ins (Some o) user = Ok (mkIop (wrap a) ins o (infer_unique (wrap a) user)).
 Proof. exact ctor_with_out_l. Qed.
 Print Assumptions ctor_with_out_structure.
 
-Theorem ctor_rejects : forall a ins outs user ext,
+Theorem ctor_rejects : forall a ins outs user,
   (1 < count_ell (wrap a) \/ (outs = None /\ existsb is_mask (wrap a) = true)) ->
-  Index_ctor a ins outs user ext = Err ValueError.
+  Index_ctor a ins outs user = Err ValueError.
 Proof. exact ctor_rejects_l. Qed.
 Print Assumptions ctor_rejects.
 
-Theorem ctor_accepted_inv : forall a ins outs user ext o, Index_ctor a ins outs user ext = Ok o ->
+Theorem ctor_accepted_inv : forall a ins outs user o, Index_ctor a ins outs user = Ok o ->
   count_ell (wrap a) <= 1 /\ i_ix o = wrap a /\ i_in o = ins /\ i_unique o = infer_unique (wrap a) user /\
   match outs with
   | Some s => i_out o = s
-  | None => existsb is_mask (wrap a) = false /\ exists gs, gathers ins (wrap a) ext = Ok gs /\ i_out o = map g_out gs
+  | None => existsb is_mask (wrap a) = false /\ exists gs, gathers ins (wrap a) = Ok gs /\ i_out o = map g_out gs
   end.
 Proof. exact ctor_ok_inv_l. Qed.
 Print Assumptions ctor_accepted_inv.
@@ -248,11 +314,37 @@ Example ex_mask_unique : exists g, infer_unique [XEll; XMask [3] [true; false; t
 Proof. eexists. repeat split; reflexivity. Qed.
 Example ex_multiplicity_aliases : coverage_of 2 (norm_index 2 [0; 1; -1; -2]%Z) = [2; 2]%Z.
 Proof. reflexivity. Qed.
-Example ex_rule_fires : exists o, Index_ctor (ATuple [XEll; XArr [3] [1; 1; -3]%Z]) [[2; 3]] None None [] = Ok o /\
+Example ex_rule_fires : exists o, Index_ctor (ATuple [XEll; XArr [3] [1; 1; -3]%Z]) [[2; 3]] None None = Ok o /\
   TransposeIndex_rule o = Ok (Some ((-1)%Z, [1; 2; 0]%Z)) /\ IndexTranspose_rule o = None.
 Proof. eexists. repeat split; reflexivity. Qed.
-Example ex_noop : exists o, Index_ctor (ATuple [XSlice None None None; XEll]) [[2; 3]] None None [] = Ok o /\
+Example ex_noop : exists o, Index_ctor (ATuple [XSlice None None None; XEll]) [[2; 3]] None None = Ok o /\
   Index_reduce_is_identity o = true.
 Proof. eexists. split; reflexivity. Qed.
-Example ex_ctor_mask_needs_out : Index_ctor (ASingle (XMask [2] [true; false])) [[2; 3]] None None [] = Err ValueError.
+Example ex_ctor_mask_needs_out : Index_ctor (ASingle (XMask [2] [true; false])) [[2; 3]] None None = Err ValueError.
+Proof. reflexivity. Qed.
+
+(* several array entries: a mask and an integer array separated by a slice (broadcast axis in front), a
+   rank-2 mask next to an array (in place), two masks (inferred unique, distinct positions), and a mask
+   next to an integer array that repeats an element - for which the inference says False *)
+Example ex_mask_array_front :
+  leaf_gather [2; 3; 4] [XMask [2] [true; true]; XSlice None None None; XArr [2] [1; -1]%Z]
+  = Ok (mkG [2; 3] [1; 5; 9; 15; 19; 23]).
+Proof. reflexivity. Qed.
+Example ex_mask2_array_in_place :
+  leaf_gather [2; 3; 4] [XMask [2; 3] [true; false; true; false; false; true]; XArr [3] [1; -1; 0]%Z]
+  = Ok (mkG [3] [1; 11; 20]).
+Proof. reflexivity. Qed.
+Example ex_broadcast_rank2 :
+  leaf_gather [2; 3; 4] [XArr [2] [1; 0]%Z; XEll; XArr [2; 1] [1; -1]%Z]
+  = Ok (mkG [2; 2; 3] [13; 17; 21; 1; 5; 9; 15; 19; 23; 3; 7; 11]).
+Proof. reflexivity. Qed.
+Example ex_two_masks_unique : exists g, infer_unique [XMask [2] [true; true]; XEll; XMask [3] [true; false; true]] None = true /\
+  leaf_gather [2; 2; 3] [XMask [2] [true; true]; XEll; XMask [3] [true; false; true]] = Ok g /\ g_sel g = [0; 3; 8; 11].
+Proof. eexists. repeat split; reflexivity. Qed.
+Example ex_mask_plus_array_repeats : exists g,
+  leaf_gather [2; 3] [XMask [2] [true; false]; XArr [2] [1; 1]%Z] = Ok g /\ g_sel g = [1; 1] /\
+  infer_unique [XMask [2] [true; false]; XArr [2] [1; 1]%Z] None = false.
+Proof. eexists. repeat split; reflexivity. Qed.
+Example ex_broadcast_mismatch :
+  leaf_gather [2; 3; 4] [XArr [3] [1; -1; 0]%Z; XArr [2] [2; 1]%Z] = Err ValueError.
 Proof. reflexivity. Qed.
